@@ -22,6 +22,8 @@ mod c16;
 mod c18;
 mod c06;
 mod c10;
+mod lsp;
+mod c09;
 
 use std::path::PathBuf;
 
@@ -66,6 +68,7 @@ fn main() {
     "c18" => c18::run(&o),
     "c06" => c06::run(&o),
     "c10" => c10::run(&o),
+    "c09" => c09::run(&o),
     "c05" => c05::run_stream(&o, "c05"),
     "c04" => c05::run_stream(&o, "c04"),
     s => { eprintln!("unknown stream {s}"); std::process::exit(2); }
